@@ -143,7 +143,10 @@ def run(ctx):
                          {"tree": named, "carried": names_hit, "mapping": {k: list(v) for k, v in name_to_path.items()}})
                 continue
             try:
-                m2, o2_ = I.naming.matching_from_names(names_hit, name_to_path)
+                # (the reported names as the caller may hold them: a list, a tuple, a set, a one-shot iterable --
+                # seeded C16-H: the names read twice)
+                spell = rng.choice([list, tuple, set, iter, lambda x: (n for n in x), lambda x: dict.fromkeys(x).keys()])
+                m2, o2_ = I.naming.matching_from_names(spell(names_hit), name_to_path)
                 if {tuple(x) for x in m2} != set(matching) or {tuple(x) for x in o2_} != set(other):
                     ctx.fail("matching_from_names does not give (paths of the reported names, paths of the others)",
                              {"tree": named, "names": names_hit})
@@ -187,6 +190,42 @@ def run(ctx):
                         if (set(ok2), set(ko2)) != (set(ok), set(ko)):
                             ctx.fail("a propagation interrupted by another call on the same propagator gives a different "
                                      "answer than a fresh propagator", {"tree": named, "default_or": default_or})
+                # ---- the same propagator, the same root object edited in place (an operand appended through the
+                # `children` setter), named again, propagated again: the answer is the one for the tree as it is now
+                # (seeded C16-H: the structural walk remembered per root object)
+                if has_op and rng.random() < 0.08:
+                    o3 = common.load_tree(named)
+                    mp3 = I.naming.MatchingPropagator(T.OrOperation if default_or else T.AndOperation)
+                    mp3(o3, matching, other)
+                    opn = [x for x in trees.all_nodes(o3) if isinstance(x, T.BaseOperation)]
+                    tgt = rng.choice(opn)
+                    extra = rng.choice([T.Word("extra"), T.Prohibit(T.Word("extra")), T.Group(T.OrOperation(T.Word("e1"), T.Word("e2")))])
+                    tgt.children = list(tgt.children) + [extra]
+                    n2p3 = I.naming.auto_name(o3)
+                    named3 = common.dump_tree(o3)
+                    nodes3 = dict(common.tree_nodes(named3))
+                    terms3 = [p for p, n in nodes3.items() if n["c"] in TERMLIKE and
+                              not any(nodes3[p[:k]]["c"] in ("Range", "Fuzzy", "Proximity") for k in range(len(p)))]
+                    tau3 = {p: rng.random() < 0.5 for p in terms3}
+                    cover3 = {tuple(pp): covered_term(nodes3[tuple(pp)], tuple(pp)) for pp in n2p3.values()}
+                    if not any(negb and tp is not None for tp, negb in cover3.values()):
+                        m3 = {p for p, (tp, _) in cover3.items() if tp is not None and tau3[tp]}
+                        ok3, ko3 = mp3(o3, m3, set(cover3) - m3)
+                        fresh = I.naming.MatchingPropagator(T.OrOperation if default_or else T.AndOperation)(
+                            common.load_tree(named3), m3, set(cover3) - m3)
+                        ctx.count("history: same propagator, tree edited in place and propagated again")
+                        if (set(ok3), set(ko3)) != (set(fresh[0]), set(fresh[1])):
+                            ctx.fail("the same propagator, given the same root object again after an in-place edit, answers "
+                                     "differently from a fresh propagator on the edited tree",
+                                     {"tree": named3, "default_or": default_or})
+                        vis3 = [p for p in nodes3 if not any(nodes3[p[:k]]["c"] in ("Range", "Fuzzy", "Proximity") for k in range(len(p)))]
+                        if not any(n["c"] == "BoolOperation" for n in nodes3.values()):
+                            for p in vis3:
+                                if (p in ok3) != evaluate(nodes3[p], p, tau3, default_or) or (p in ok3) == (p in ko3):
+                                    ctx.fail("after an in-place edit, sub-expression at %s is not classified once, as its "
+                                             "truth value" % list(p), {"tree": named3, "default_or": default_or,
+                                                                       "true_terms": [list(q_) for q_ in terms3 if tau3[q_]]})
+                                    break
                 if len(earlier) < 40:
                     earlier.append((o, set(matching), set(other), default_or, set(ok), set(ko)))
                 reqs.append({"op": "propagate", "tree": named, "matching": sorted(map(list, matching)),
